@@ -550,7 +550,7 @@ def _known_not_none(x):
 
 LIST_ATTRS = set()         # attribute names that always hold a list (model.py)
 NOTNONE_CALLS = set()      # package functions whose every return statement yields a value that cannot be None (model.py)
-NUMERIC_RESULT = {'trunc', 'floordiv', 'mod', 'min', 'max', 'meshgrid', 'zeros', 'ones', 'full', 'empty', 'linspace', 'arange', 'array', 'diff', 'reshape', 'repeat',
+NUMERIC_RESULT = {'tile_rows', 'tile_cols', 'size', 'trunc', 'floordiv', 'mod', 'min', 'max', 'meshgrid', 'zeros', 'ones', 'full', 'empty', 'linspace', 'arange', 'array', 'diff', 'reshape', 'repeat',
                   'concatenate', 'append', 'abs', 'sqrt', 'exp', 'log', 'cos', 'sin', 'round', 'floor', 'ceil', 'mean', 'sum',
                   'std', 'cumsum', 'len', 'int', 'float', 'astype', 'real', 'imag', 'maximum', 'minimum', 'clip', 'where',
                   'tile', 'flip', 'transpose', 'fft', 'fftshift', 'rfft', 'frombuffer', 'copy'}
@@ -672,7 +672,7 @@ MODELLED = {
     'empty', 'full', 'reshape', 'meshgrid', 'diff', 'array', 'copy', 'astype', 'fft', 'fftshift',
     'rfft', 'concatenate', 'append', 'repeat', 'where', 'flip', 'transpose', 'int', 'float',
     'complex', 'firwin', 'sort', 'cumsum', 'tobytes', 'frombuffer', 'tile', 'expand_dims',
-    'isinstance', 'callable', 'range', 'enumerate', 'normal', 'chisquare', 'choice', 'integers',
+    'tile_rows', 'tile_cols', 'size', 'isinstance', 'callable', 'range', 'enumerate', 'normal', 'chisquare', 'choice', 'integers',
     'standard_normal', 'uniform', 'default_rng', 'power', 'sigma_clip', 'deepcopy', 'shape',
     'iscomplexobj', 'getattr', 'Time', 'unix', 'mjd', 'str', 'strip', 'encode', 'decode',
     'format', 'fstr', 'wofz', 'modf', 'unique', 'vectorize', 'dict', 'list', 'zip', 'sorted',
@@ -704,6 +704,14 @@ def _array_valued(t, depth=0):
             x.single_atom() is not None and x.single_atom().kind == 'slice' for x in ia.args)))
         return sliced and _array_valued(a.args[0], depth + 1)
     return False
+
+
+def _strip_array(t):
+    a = t.single_atom()
+    while a is not None and a.kind == 'call' and a.args[0] == 'array' and len(a.args[1]) == 1 and not a.args[2]:
+        t = a.args[1][0]
+        a = t.single_atom()
+    return t
 
 
 def mk_call(fn, args=(), kwargs=()):
@@ -854,6 +862,47 @@ def mk_call(fn, args=(), kwargs=()):
     if fn == 'float' and len(args) == 1 and not kwargs and _numeric_like(args[0]) and \
             not any(a.kind == 'sub' for a in args[0].atoms()):
         return args[0]
+    if fn in ('tile_rows', 'tile_cols') and len(args) == 2 and not kwargs:
+        # the replication count of a grid is the number of items of the other (one-dimensional) axis: len == size there
+        ca = args[1].single_atom()
+        if ca is not None and ca.kind == 'call' and ca.args[0] == 'len' and len(ca.args[1]) == 1 and not ca.args[2]:
+            args = [args[0], mk_call('size', [ca.args[1][0]])]
+    if fn == 'size' and len(args) == 1 and not kwargs:
+        sq = as_seq(_strip_array(args[0]))
+        if sq is not None:
+            return sq[2]
+        args = [_strip_array(args[0])]
+    if fn == 'repeat' and len(args) == 1:
+        # np.repeat(np.reshape(a, (1, -1)), n, axis=0) is the frequency-like grid of np.meshgrid(a, <n values>), and
+        # np.repeat(np.reshape(b, (-1, 1)), n, axis=1) the time-like one: one canonical form for both spellings
+        kwd = dict(kwargs)
+        ra = args[0].single_atom()
+        if ra is not None and ra.kind == 'call' and ra.args[0] == 'reshape' and len(ra.args[1]) == 2 and not ra.args[2] \
+                and set(kwd) == {'repeats', 'axis'}:
+            shp = ra.args[1][1].single_atom()
+            ax = kwd['axis'].const()
+            if shp is not None and shp.kind == 'tuple' and len(shp.args) == 2:
+                s0, s1 = shp.args[0].const(), shp.args[1].const()
+                if (s0, s1, ax) == (1, -1, 0):
+                    return mk_call('tile_rows', [_strip_array(ra.args[1][0]), kwd['repeats']])
+                if (s0, s1, ax) == (-1, 1, 1):
+                    return mk_call('tile_cols', [_strip_array(ra.args[1][0]), kwd['repeats']])
+    if fn == 'dict' and len(args) == 1 and not kwargs:
+        # dict(zip(K, [v(k) for k in K]))  ==  {k: v(k) for k in K}
+        za = args[0].single_atom()
+        if za is not None and za.kind == 'call' and za.args[0] == 'zip' and len(za.args[1]) == 2 and not za.args[2]:
+            K, L = za.args[1]
+            la = L.single_atom()
+            if la is not None and la.kind == 'comp' and la.args[0] == 'list' and len(la.args[2]) == 1:
+                ga = la.args[2][0].single_atom()
+                if ga is not None and ga.kind == 'tuple' and len(ga.args) == 1 and ga.args[0].key == K.key:
+                    ids = {a.args[-1] for a in all_atoms(la.args[1]).values() if a.kind in ('elem', 'idx', 'key') and a.args
+                           and isinstance(a.args[-1], str) and a.args[-1].startswith('C')}
+                    cid = sorted(ids)[0] if ids else 'C0:0:0'
+                    own = la.args[3:] if len(la.args) > 3 else (cid.rsplit(':', 1)[0],)
+                    if not ids:
+                        cid = own[0] + ':0'
+                    return Term.of(Atom('comp', 'dict', mk_tuple([Term.of(Atom('elem', K, cid)), la.args[1]]), la.args[2], *own))
     if fn in ('zip', 'enumerate') and args and not kwargs:
         ats = [a.single_atom() for a in args]
         if fn == 'zip' and all(a is not None and a.kind in ('list', 'tuple') for a in ats):
@@ -983,6 +1032,12 @@ def mk_sub(base, idx):
             L, v = at.args[1]
             if idx.key == mk_call('len', [L]).key:
                 return v
+        if at.kind == 'call' and at.args[0] == 'meshgrid' and len(at.args[1]) == 2 and not at.args[2]:
+            k = idx.const()
+            if k == 0:
+                return mk_call('tile_rows', [_strip_array(at.args[1][0]), mk_call('size', [at.args[1][1]])])
+            if k == 1:
+                return mk_call('tile_cols', [_strip_array(at.args[1][1]), mk_call('size', [at.args[1][0]])])
         if at.kind == 'call' and at.args[0] == 'shape' and len(at.args[1]) == 1:
             k = idx.const()
             if k is not None and k.denominator == 1 and k >= 0:
@@ -1212,6 +1267,37 @@ def canon(t):
     return subst(t, lambda a: None)
 
 
+def canon_comps(t):
+    """Comprehension variables are bound: every comprehension's own loop identifiers (line based, `C12:4:k`) are renamed to
+    `C@d:k`, d = nesting depth counted from the innermost comprehension, so that two comprehensions that differ only in
+    where they stand in the source are the same term."""
+    import re
+
+    def fn(a):
+        if a.kind != 'comp' or len(a.args) < 4 or not isinstance(a.args[3], str) or a.args[3].startswith('C@'):
+            return None
+        own = a.args[3]
+        inner = Term.of(Atom('tuple', a.args[1], *a.args[2]))
+        depth = 0
+        for x in all_atoms(inner).values():
+            for y in x.args:
+                if isinstance(y, str) and y.startswith('C@'):
+                    depth = max(depth, int(re.match(r'C@(\d+)', y).group(1)) + 1)
+        new_own = f'C@{depth}'
+
+        def ren(x):
+            if x.kind in ('elem', 'idx', 'key', 'loopvar', 'after') and x.args and isinstance(x.args[-1], str) \
+                    and x.args[-1].startswith(own + ':'):
+                return Term.of(Atom(x.kind, *(x.args[:-1] + (new_own + x.args[-1][len(own):],))))
+            if x.kind == 'comp' and len(x.args) > 3 and x.args[3] == own:
+                return Term.of(Atom('comp', x.args[0], x.args[1], x.args[2], new_own))
+            return None
+        elt = subst(a.args[1], ren)
+        gens = tuple(subst(g, ren) for g in a.args[2])
+        return Term.of(Atom('comp', a.args[0], elt, gens, new_own))
+    return subst(t, fn)
+
+
 def rename_loops(t, kinds='LCT'):
     """Loop / try identifiers are line based (L46, C12:4:0, T128); rename them by rank so that a
     reference transcription with different line numbers compares equal."""
@@ -1404,6 +1490,9 @@ def _boolean(t):
 def compare(a, b, max_conds=8):
     """Three-valued comparison of two terms, eliminating Ite conditions by case analysis."""
     a, b = lift(a), lift(b)
+    if a.key == b.key:
+        return EQUAL, None
+    a, b = canon_comps(a), canon_comps(b)                                  # comprehension variables are bound names
     if a.key == b.key:
         return EQUAL, None
     a, b = rename_loops(canon(a), 'LT'), rename_loops(canon(b), 'LT')     # loops / try blocks: stable statement order
